@@ -249,6 +249,8 @@ def partition_by_column(
     column_groups_dd: Dict[str, Tuple[List[str], List[str], List[float]]] = collections.defaultdict(
         lambda: ([], [], [])
     )
+    if partition_by not in ("source", "destination"):
+        raise ValueError(f'Invalid `partition_by` parameter "{partition_by}""')
     for s, d, v in zip(sources, destinations, volumes):
         if partition_by == "source":
             group = s[1:]
